@@ -101,7 +101,7 @@ def _kids(t):
     if k == "S":
         return t[1]
     if k == "T":
-        return [t[2], t[3]]
+        return [t[-2], t[-1]]           # plain ["T", filt, body, handler] or numbered ["T", id, filt, body, handler]
     return []
 
 
